@@ -150,7 +150,10 @@ func permutations(n int, f func(p []int)) {
 	rec(0)
 }
 
-var suffixes = []string{"x", " 1", "}", "]", ",", "{}", " }", "\n]", `"`, "\x00"}
+var suffixes = []string{"x", " 1", "}", "]", ",", "{}", " }", "\n]", `"`, "\x00", " 1 2", " 2 3 4", "\v", "\f", "\u00a0", "\u0085", "\u2028", "\u3000", "\ufeff"}
+
+// prefixes are put in front of a document by derived(): JSON knows four white-space characters, nothing else may be skipped.
+var prefixes = []string{"\v", "\f", "\u00a0", "\u0085", "\u2028", "\u3000", "\ufeff", "\x00", "x", ",", "1 ", "[", "\xc2"}
 
 // derived judges doc plus its truncations and suffixed forms under the JSON-enabling rules.
 func derived(doc string, maxKeys int, w *vkit.W, hashed bool) {
@@ -165,6 +168,15 @@ func derived(doc string, maxKeys int, w *vkit.W, hashed bool) {
 			judge(c, w)
 			w.EvalRandom(vkit.Hash64(doc+sfx, strconv.Itoa(rule), strconv.Itoa(maxKeys)), true)
 		}
+		for _, pfx := range prefixes {
+			c := Case{Input: vkit.B(pfx + doc), Rule: rule, MaxKeys: maxKeys}
+			judge(c, w)
+			w.EvalRandom(vkit.Hash64(pfx+doc, strconv.Itoa(rule), strconv.Itoa(maxKeys)), true)
+		}
+		// after a rejected input the same document must still be read as before (nothing of the rejected input may linger)
+		c := Case{Input: vkit.B(doc), Rule: rule, MaxKeys: maxKeys}
+		judge(c, w)
+		w.EvalRandom(vkit.Hash64(doc, strconv.Itoa(rule), strconv.Itoa(maxKeys), "again"), true)
 	}
 }
 
